@@ -12,7 +12,7 @@ import warnings
 
 import numpy as np
 
-from harness import core, tlc, fcsgen
+from harness import core, tlc, fcsgen, loadform
 from harness.core import run_driver
 
 import FlowCal.io  # noqa
@@ -56,7 +56,7 @@ class Containers(object):
                 fcsgen.write_sample(path, vals, ['c%d' % i for i in range(nc)], [65536] * nc, bits=16, datatype=dt, pne=['0,0'] * nc)
             with warnings.catch_warnings():
                 warnings.simplefilter('ignore')
-                x = FlowCal.io.FCSData(path)
+                x = FlowCal.io.FCSData(loadform.arg(path))
                 if kind == 'sample-double-used':
                     # the RAW sample of a double-precision file, after its RFI version was made (and dropped): the raw
                     # statistics are still those of the recorded events
